@@ -42,7 +42,8 @@ fn dsum<'a>(datas: impl Iterator<Item = &'a [u8]>) -> u64 {
 }
 
 fn id_of(s: &str) -> u64 {
-    s.get(1..).and_then(|x| x.parse().ok()).unwrap_or(999)
+    let digits: String = s.chars().skip(1).take_while(|c| c.is_ascii_digit()).collect();
+    digits.parse().unwrap_or(999)
 }
 
 /// bytes a length-delimited protobuf field with a 1-byte tag occupies
@@ -483,12 +484,13 @@ fn exhaustive(thorough: bool) -> Vec<Value> {
             }
         }
     }
-    // (D) gossipsub publish / control limits exactly at and just beyond the limit
-    for (npub, nihave, ngraft) in [(2, 0, 0), (3, 0, 0), (1, 1, 1), (0, 2, 2), (2, 2, 0), (0, 0, 3)] {
-        for maxctl in [19usize, 20, 21, 26, 27, 28] {
-            let f0 = json!({"id": 1, "npub": 1, "nsub": 1, "nihave": 0, "ngraft": 0, "pad": 3});
-            let f1 = json!({"id": 2, "npub": npub, "nsub": 0, "nihave": nihave, "ngraft": ngraft, "pad": 2});
-            let s = Stream { codec: "gs", via: "new", limit: 1000, maxpub: 2, maxctl, frames: vec![f0, f1], lens: vec![], junk: vec![] };
+    // (D) gossipsub publish / control limits: RPCs exactly at, one below and one above the limits
+    for (npub, nsub, nihave, ngraft) in [(2, 0, 0, 0), (3, 0, 0, 0), (1, 0, 1, 1), (0, 0, 2, 2), (2, 0, 2, 0), (0, 0, 0, 3), (1, 2, 0, 0), (0, 1, 1, 0)] {
+        let f0 = json!({"id": 1, "npub": 1, "nsub": 0, "nihave": 0, "ngraft": 0, "pad": 3});
+        let f1 = json!({"id": 2, "npub": npub, "nsub": nsub, "nihave": nihave, "ngraft": ngraft, "pad": 2});
+        let ctl = build_rpc(&f1).2;
+        for maxctl in [ctl.saturating_sub(1), ctl, ctl + 1] {
+            let s = Stream { codec: "gs", via: "new", limit: 1000, maxpub: 2, maxctl, frames: vec![f0.clone(), f1.clone()], lens: vec![], junk: vec![] };
             out.push(s.sched(json!([1000])));
             out.push(s.sched(json!([9, 1000])));
         }
